@@ -714,6 +714,14 @@ CORPUS = [
     [["append", "imap", M2], ["append", "imap", M3], ["open"], ["pop", "RETR 2"], ["expunge", [2], "uid"],
      ["pop", "LIST"], ["pop", "STAT"], ["pop", "LIST"], ["pop", "DELE 2"], ["pop", "DELE 1"], ["pop", "RSET"],
      ["pop", "DELE 2"], ["drop"], ["observe"]],
+    # several messages marked; an IMAP session expunges one of the marked ones (not the last marked) before QUIT:
+    # QUIT still removes every other marked message and nothing else
+    [["append", "imap", M1], ["append", "imap", M2], ["append", "imap", M3], ["append", "imap", M4], ["append", "imap", M2],
+     ["append", "imap", M3], ["open"], ["pop", "DELE 2"], ["pop", "DELE 3"], ["pop", "DELE 5"], ["expunge", [2], "uid"],
+     ["pop", "QUIT"], ["observe"]],
+    [["append", "imap", M1], ["append", "imap", M2], ["append", "imap", M3], ["append", "imap", M4], ["open"],
+     ["pop", "DELE 1"], ["pop", "DELE 4"], ["pop", "DELE 2"], ["expunge", [1], "uid"], ["expunge", [3], "uid"],
+     ["pop", "QUIT"], ["observe"]],
 ]
 
 
